@@ -33,9 +33,9 @@ LEVEL = {"C10": "fault_enumeration", "C11": "exploration", "C14": "exploration"}
 CONFORM = {"quick": {"helper": 6, "api": 6, "daemon": 8}, "thorough": {"helper": None, "api": 80, "daemon": 80}}
 TIERS = {
     "quick": {"hash_seeds": 4, "C10": {"random": 120, "sweep_n": (0,), "typing_all": False},
-              "C11": {"runs": 120, "soak": 2}, "C14": {"runs": 220, "soak": 2}, "budget_s": 360},
+              "C11": {"runs": 120, "soak": 2}, "C14": {"runs": 220, "soak": 2}, "budget_s": 360, "ref_budget_s": 600},
     "thorough": {"hash_seeds": 32, "C10": {"random": 4000, "sweep_n": (0, 1), "typing_all": True},
-                 "C11": {"runs": 6000, "soak": 60}, "C14": {"runs": 10000, "soak": 60}, "budget_s": 3000},
+                 "C11": {"runs": 6000, "soak": 60}, "C14": {"runs": 10000, "soak": 60}, "budget_s": 3000, "ref_budget_s": 1800},
 }
 
 
@@ -195,11 +195,25 @@ class Check:
                 skipped, "VERIF_EARLY_STOP=1 and a run had already violated the property" if stopped_early
                 else "wall budget of %d s reached" % self.cfg["budget_s"]))
         log("[%s] %d runs executed in %.1f s; computing references" % (prop, len(executed), time.monotonic() - self.t0))
+        # references are computed in run order under their own wall budget; a run whose references did not all make it
+        # is not judged (and is reported as such), never judged against a partial set
+        scale = float(os.environ.get("VERIF_BUDGET_SCALE", "1"))
+        ref_deadline = time.monotonic() + self.cfg.get("ref_budget_s", 600) * max(scale, 0.25)
         wanted = {}
+        needs_of = []
         for s, r in executed:
-            wanted.update(judge.NEEDS[prop](s, r))
-        self.refs.ensure(wanted)
-        log("[%s] %d references (%d computed) at %.1f s" % (prop, len(wanted), self.refs.computed, time.monotonic() - self.t0))
+            n = judge.NEEDS[prop](s, r)
+            needs_of.append(set(n))
+            for k, v in n.items():
+                wanted.setdefault(k, v)
+        self.refs.ensure(wanted, deadline=ref_deadline)
+        have = set(self.refs.cache)
+        judged = [(s, r) for (s, r), n in zip(executed, needs_of) if n <= have]
+        if len(judged) < len(executed):
+            self.notes.append("%d executed runs were not judged: their references were not computed within the reference budget of %d s"
+                              % (len(executed) - len(judged), self.cfg.get("ref_budget_s", 600)))
+        executed = judged
+        log("[%s] %d references (%d computed) at %.1f s; %d runs judged" % (prop, len(wanted), self.refs.computed, time.monotonic() - self.t0, len(executed)))
         violations, harness = [], []
         for s, r in executed:
             if r.get("harness_error"):
